@@ -8,8 +8,9 @@
   (abstraction of the fork/merge/wait head protocol, see Models/Dnf.lean part 2 and design_notes/C07.md).
 -/
 import NemoVerif.Lemmas.Dnf
+import NemoVerif.Lemmas.GroupExpand
 namespace NemoVerif.C07
-open NemoVerif NemoVerif.Dnf
+open NemoVerif NemoVerif.Dnf NemoVerif.GroupExpand
 
 /-! ## `normalize_element_groups` -/
 
@@ -48,12 +49,12 @@ theorem group_completes_at_first_sat (g : G) (es : List Nat) (k : Nat) :
     (markers g es)[k]? = some true ↔
       (k < es.length ∧ eval (seen es k) g = true ∧ ∀ j, j < k → eval (seen es j) g = false) := by
   have h := run_spec (toDnf (normalize g)) es [] k
-  simp only [remaining_nil, List.map_id', List.nil_append] at h
+  simp only [List.nil_append] at h
   have hmap : (toDnf (normalize g)).map (remaining []) = toDnf (normalize g) := by
     rw [show remaining [] = id from funext remaining_nil]; simp
   rw [hmap] at h
   have hs : ∀ i, sat (toDnf (normalize g)) (es.take (i + 1)) = eval (seen es i) g := by
-    intro i; simp only [sat, seen]; exact normalize_sound g _
+    intro i; simp only [sat]; exact normalize_sound g _
   simp only [hs] at h
   exact h
 
@@ -121,6 +122,20 @@ theorem order_independent (g : G) (es es' : List Nat) (hne : eval (fun _ => fals
     funext n; simp only [List.contains_eq_mem]; exact decide_eq_decide.2 (hset n)
   rw [this]
 
+/-! ## the expanded element list -/
+
+/-- The checker that is run on the REAL element list of every generated `match <group>` accepts the
+    list the mirrored code generator emits and reads back exactly the clauses of the normalised group:
+    one forked head per and-clause, inside it one forked head per atom, `WaitForHeads.number` = number of
+    atoms of the clause (and-template) resp. number of clauses (failure path of the or-template).
+    For every group, any nesting. -/
+theorem readBack_expandMatch (g : G) : readBack (expandMatch g) = some (toDnf (normalize g)) := by
+  simp only [readBack, expandMatch, readGroup_expandClauses]
+
+/-- ... and for any clause list and any start of the fresh-name counter. -/
+theorem readBack_expandClauses (d : Clauses) (k : Nat) : readBack (expandClauses d k).1 = some d := by
+  simp only [readBack, readGroup_expandClauses]
+
 /-! ## non-vacuity and kernel-evaluated tests (labelled as tests: finite facts) -/
 
 /-- the running example `(A and (B or C)) or D` with A=0, B=1, C=2, D=3, irrelevant event 9 -/
@@ -134,6 +149,13 @@ example : markers ex1 [1, 9, 1, 0, 3, 0] = [false, false, false, true, false, fa
 example : eval (fun _ => false) ex1 = false := by decide
 -- non-vacuity of `marker_never_before`
 example : eval (seen [1, 9, 1, 0] 2) ex1 = false := by decide
+-- test: the checker rejects an and-template whose WaitForHeads number is one too small / whose merge precedes the wait
+example : readBack [.catchPF (some 1), .fork 0 [3, 4], .label 3, .matchEv 0, .goto 2, .label 4, .matchEv 1, .goto 2,
+    .label 1, .merge 0, .catchPF none, .abort, .label 2, .wait 1, .merge 0, .catchPF none] = none := by decide
+example : readBack [.catchPF (some 1), .fork 0 [3, 4], .label 3, .matchEv 0, .goto 2, .label 4, .matchEv 1, .goto 2,
+    .label 1, .merge 0, .catchPF none, .abort, .label 2, .merge 0, .wait 2, .catchPF none] = none := by decide
+example : readBack [.catchPF (some 1), .fork 0 [3, 4], .label 3, .matchEv 0, .goto 2, .label 4, .matchEv 1, .goto 2,
+    .label 1, .merge 0, .catchPF none, .abort, .label 2, .wait 2, .merge 0, .catchPF none] = some [[0, 1]] := by decide
 -- the hypothesis `hne` excludes exactly groups like `and []` (not expressible in Colang source)
 example : eval (fun _ => false) (.and []) = true := by decide
 
